@@ -38,11 +38,14 @@ pub struct DropPlan {
     /// the command (or pipeline) actually run is a clone() of the configured one
     #[serde(default)]
     pub via_clone: bool,
+    /// the handle is dropped by a panic unwinding through the caller's scope (caught further up)
+    #[serde(default)]
+    pub by_panic: bool,
 }
 
 impl Default for DropPlan {
     fn default() -> Self {
-        DropPlan { owner: Owner::Popen, detached: false, consume: None, progs: vec![], input_len: 0, pipes: [false; 3], via_clone: false }
+        DropPlan { owner: Owner::Popen, detached: false, consume: None, progs: vec![], input_len: 0, pipes: [false; 3], via_clone: false, by_panic: false }
     }
 }
 
@@ -97,6 +100,7 @@ pub fn generate(rng: &mut Rng, plan: &mut Plan, _index: u64) {
     ]);
     d.detached = rng.chance(1, 5);
     d.via_clone = rng.chance(1, 4);
+    d.by_panic = rng.chance(1, 6);
     d.consume = match rng.below(4) {
         0 => Some(0),
         1 => Some(1 + rng.below(5000) as usize),
@@ -259,7 +263,7 @@ pub fn run(_plan: &Plan, d: &DropPlan) -> FamOut {
                     }
                     let w0 = sim().k.wait_log.len();
                     let b0 = seq();
-                    let _ = lib_drop(&format!("drop({})", $label), rd);
+                    let _ = if d.by_panic { lib_drop_unwinding(&format!("drop({})", $label), rd) } else { lib_drop(&format!("drop({})", $label), rd) };
                     judge_detached(d.detached, w0, b0, &owner);
                 }
             }
@@ -287,7 +291,7 @@ pub fn run(_plan: &Plan, d: &DropPlan) -> FamOut {
                     }
                     let w0 = sim().k.wait_log.len();
                     let b0 = seq();
-                    let _ = lib_drop(&format!("drop({})", $label), wr);
+                    let _ = if d.by_panic { lib_drop_unwinding(&format!("drop({})", $label), wr) } else { lib_drop(&format!("drop({})", $label), wr) };
                     judge_detached(d.detached, w0, b0, &owner);
                 }
             }
@@ -309,7 +313,7 @@ pub fn run(_plan: &Plan, d: &DropPlan) -> FamOut {
                     drop(p.stderr.take());
                     let w0 = sim().k.wait_log.len();
                     let b0 = seq();
-                    let _ = lib_drop("drop(Popen)", p);
+                    let _ = if d.by_panic { lib_drop_unwinding("drop(Popen)", p) } else { lib_drop("drop(Popen)", p) };
                     judge_detached(d.detached, w0, b0, &owner);
                 }
             }
